@@ -367,16 +367,27 @@ def hyper_cases(draw):
         r = draw(gm.recipes2d(types=["TRI3", "QUAD4", "TRI6", "QUAD8"], affine_ok=False, hmin=6, hmax=9, nmax=4))
     else:
         r = draw(gm.recipes3d(types=["TETRA4", "PRISM6", "HEXA8"], affine_ok=False, nmax=4))
-    law = draw(st.sampled_from(["NeoHookean", "MooneyRivlin", "SaintVenantKirchhoff", "CiarletGeymonat"]))
+    # HolzapfelOgden: fibre and sheet directions (with an out-of-plane part in 3D) carried by the isometry with the rest
+    law = draw(st.sampled_from(["NeoHookean", "MooneyRivlin", "SaintVenantKirchhoff", "CiarletGeymonat", "HolzapfelOgden"]
+                               + (["HolzapfelOgden"] * 3 if dim == 3 else [])))
     vec = lambda lo, hi, den: [draw(st.integers(lo, hi)) / den for _ in range(dim)]  # noqa
+    fib = [draw(st.integers(0, 11)), draw(st.integers(1, 5)), draw(st.integers(-3, 3))]
     # active fibre stress tau * (T (x) T): the fibre direction is carried by the isometry with the rest of the problem
     active = dict(tau=draw(st.sampled_from([0.05, 0.1, -0.05])), ang=draw(st.integers(0, 11))) if draw(st.integers(0, 2)) == 0 else None
     return dict(recipe=r, law=law, iso=draw(isometries(dim)), dirang=draw(st.integers(0, 11)), ud=vec(-3, 3, 100.0),
-                trac=vec(-4, 4, 40.0), body=vec(-4, 4, 40.0), active=active)
+                trac=vec(-4, 4, 40.0), body=vec(-4, 4, 40.0), active=active, fib=fib)
 
 
-def _hyper_law(name, dim):
+def _hyper_law(name, dim, Qm=None, fib=None):
     H = Models.HyperElastic
+    if name == "HolzapfelOgden":
+        a1 = fib[0] * np.pi / 6 + 0.1
+        a2 = a1 + fib[1] * np.pi / 6
+        z1, z2 = (0.5, 0.1 * fib[2]) if dim == 3 else (0.0, 0.0)
+        T1 = Qm @ np.array([np.cos(a1), np.sin(a1), z1])
+        T2 = Qm @ np.array([np.cos(a2), np.sin(a2), z2])
+        T1, T2 = T1 / np.linalg.norm(T1), T2 / np.linalg.norm(T2)
+        return H.HolzapfelOgden(dim, 1.0, 0.5, 0.75, 0.5, 0.5, 0.25, 0.25, 0.5, 5.0, 1.0, 0.5, T1=T1, T2=T2, ks=10.0)
     if name == "NeoHookean":
         return H.NeoHookean(dim, K=5.0)
     if name == "MooneyRivlin":
@@ -410,7 +421,7 @@ def check_hyper(case, rec):
 
     def solve(m, Qm):
         try:
-            mat = _hyper_law(case["law"], dim)
+            mat = _hyper_law(case["law"], dim, Qm, case.get("fib", [1, 2, 1]))
         except TypeError:
             raise Inconclusive("law constructor signature differs")
         act = case.get("active")
